@@ -438,6 +438,14 @@ func finishScalar(t *rapid.T, c *ScalarCase) {
 	c.LateRule = rapid.IntRange(0, 7).Draw(t, "lateRule") == 0
 	if c.Carrier == "url" || c.Carrier == "urlenc" {
 		genAgain(t, c)
+		if rapid.IntRange(0, 3).Draw(t, "oddSegment") == 2 {
+			seg := rapid.SampledFrom(oddSegments).Draw(t, "segment")
+			at := rapid.IntRange(0, len(c.Others)).Draw(t, "segmentAt")
+			c.Others = append(c.Others[:at:at], append([][2]string{seg}, c.Others[at:]...)...)
+			if at < c.Pos || rapid.Bool().Draw(t, "segmentFirst") {
+				c.Pos++ // (keep our parameter behind the odd segment more often than not)
+			}
+		}
 	}
 	c.Plus = rapid.Bool().Draw(t, "plusForBlank")
 	c.Lead = rapid.SampledFrom([]string{"", "", "", "time", "time", "unexported", "plain", "all"}).Draw(t, "leadFields")
